@@ -377,6 +377,19 @@ def msgpackable(t):
     return t
 
 
+def _hashcons(t, table):
+    """equal list/dict sub-structures become one and the same object (marshal then encodes them as references)"""
+    if type(t) in (list, tuple):
+        new = type(t)(_hashcons(x, table) for x in t)
+    elif type(t) is dict:
+        new = {k: _hashcons(v, table) for k, v in t.items()}
+    else:
+        return t
+    if type(new) is tuple:
+        return new
+    return table.setdefault(repr(new), new)
+
+
 def encode(case):
     import json
     import marshal
@@ -391,6 +404,8 @@ def encode(case):
         shaped = ("obj", "meth", [], {"k": t}) if not (isinstance(t, dict) and len(str(t)) % 2) else ("obj", "meth", [], t)
     else:
         shaped = (t, t, [], {})
+    if case.get("shared"):
+        shaped = _hashcons(shaped, {})
     if ser == "json":
         if path != "loads":
             shaped = {"object": shaped[0], "method": shaped[1], "params": shaped[2], "kwargs": shaped[3]}
@@ -521,6 +536,8 @@ def _labels(case):
     tagsin = []
     input_tags(case["tree"], tagsin, "msgpack")
     l = ["ser:" + case["ser"], "path:" + case["path"]]
+    if case.get("shared"):
+        l.append("shared-subobjects")
     if tagsin:
         l.append("has-tag")
         if any(allowed_class(t, d, case["ser"]) is not None for t, d, _p in tagsin):
@@ -589,6 +606,18 @@ def nesting_cases():
             for o in outers:
                 for path in ("loads", "call-args", "call-kwargs"):
                     yield {"ser": ser, "path": path, "tree": o}
+            if ser != "marshal":
+                continue
+            # marshal keeps object identity: what the decoder gets is a DAG.  The same list/dict once in a plain data position
+            # and once as the member of a class dict ("shared": equal sub-structures are made ONE object before encoding)
+            for o in outers:
+                for key in ("state", "args", "attributes"):
+                    member = o.get(key)
+                    if type(member) not in (list, dict) or (type(member) is dict and "__class__" in member):
+                        continue
+                    for t in ([member, o], {"a": member, "b": o}, [[1, member], {"k": [o]}], [o, member]):
+                        for path in ("loads", "call-args", "call-kwargs"):
+                            yield {"ser": ser, "path": path, "tree": t, "shared": True}
 
 
 def sweep_cases(shard_index, shard_count):
